@@ -16,7 +16,7 @@ def main():
     ap.add_argument("--replay", default=None)
     a = ap.parse_args()
     mod = importlib.import_module(f"harness.checks.{a.prop.lower()}")
-    chk = common.Check(a.prop, a.tier, a.seed, level=getattr(mod, "LEVEL", "proof"))
+    chk = common.Check(a.prop, a.tier, a.seed, level=getattr(mod, "LEVEL", "proof"), exe=getattr(mod, "EXE", "amodel"))
     try:
         if a.replay:
             return mod.replay(chk, a.replay)
